@@ -113,6 +113,11 @@ FIXED = {
    ("C14", "'10.0.0.0/-0', '/+0' accepted as the whole address space, '/+24' as /24 (strconv.Atoi takes a sign); the check had left signed prefixes unclassified", "accepts-invalid cidr-v4/+24, cidr-v4/+0, '10.0.0.0/-0', '2001:db8::/-0'")],
  "sizes declared inside PARAM.SFO are bounded before they are used": [
    ("C04", "TITLE_ID with DataLen 0xFFFFFFFF / 0x7FFFFFFF in a sparse 4 GiB PARAM.SFO: server and make-iso die with 'fatal error: out of memory'; entries count 0xFFFFFFFF without the wanted key: the handler walks the index for hours (neither answered nor closed)", "process-died sfo titleid-datalen=0xffffffff,file=4GiB; cli-crash make-iso-ps3; neither-answered-nor-closed sfo count=0xffffffff,file=4GiB")],
+ "volume descriptor set terminator has version 1": [
+   ("C08", "sector 18 begins ff 'CD001' 00: the set terminator carries version 0 (ECMA-119 8.3.3: 1); my validator had checked the version of the primary and supplementary descriptors only. V03 extended first", "V03 sector 18: type 255 descriptor version 0"),
+   ("C07", "a reader that validates the terminator (libarchive's bsdtar, added to C07 as an optional third-party decoder) does not recognise the volume and finds no entry in either hierarchy", "tree-mismatch-third-party-reader random / deep / wide")],
+ "a PARAM.SFO value is read in full": [
+   ("C08", "TITLE_ID stored in string format 0x0004 (not NUL-terminated, length = characters): the last character was dropped, sector 1 carried 'BCES-0010 ' instead of 'BCES-00104'", "V11 shape:sfo-titleid-format-0004")],
  "decrypt 3k3y also removes the watermark": [
    ("C20", "decrypt 3k3y output kept watermark+key with a cleared region table: placed under a served root it could not be opened (second transformation attempted)", "serve-back-failed 3k3y-from-PS3ISO / 3k3y-from-GAMES")],
 }
